@@ -386,6 +386,9 @@ class Roots:
                 if rx.search(cs) and ai < len(v[4]):
                     pp = path_str(_strip_wrapper(path))
                     return {"%s(%s)%s" % (label, r, pp) for r in self.roots(v[4][ai])}
+            tf = getattr(self.P, "_triple_fields", None)
+            if tf and cs in tf and path and path[0][0] == "f" and path[0][1] in tf[cs]:
+                path = (("f", tf[cs].index(path[0][1])),) + tuple(path[1:])      # named triple of the pricing function: by position
             return {"C:%s@%s:bb%d%s" % (cs, v[1], v[2], path_str(_strip_wrapper(path)))}
         if k == "agg":
             p2 = path
@@ -566,7 +569,8 @@ def switch_cond(P, fn, b):
         core, negs = core[2], negs + 1
     if core[0] == "call" and isinstance(core[3], str) and not cmp_kind(core[3]):
         g_ = P.fn(core[3]) or P.fn(generic_path(core[3]))
-        if g_ is not None and g_.body is not None and g_.kind in ("fn", "assoc_fn") and storage_accessor(P, g_):
+        if g_ is not None and g_.body is not None and g_.kind in ("fn", "assoc_fn") and \
+                (storage_accessor(P, g_) or ((g_.sig or "").endswith("-> bool") and pure_helper(P, g_) and len(exit_sites(P, g_)) == 1)):
             iv = inline_call(P, core)
             if iv is not None and iv[0] in ("call", "binop", "unop"):
                 for _ in range(negs):
@@ -1075,6 +1079,7 @@ def dispatch(P, fn, enum_path):
     if len(names) == 1:
         # irrefutable match: the single variant's "arm" is the whole function (edge None)
         return {names[0]: None}
+    found = []
     for b, blk in enumerate(body.blocks):
         if blk["cleanup"]:
             continue
@@ -1099,9 +1104,14 @@ def dispatch(P, fn, enum_path):
                     rest = [i for i in range(len(names)) if i not in seen]
                     if len(rest) == 1 and body.blocks[t["otherwise"]]["term"]["k"] != "unreachable":
                         res[names[rest[0]]] = (b, t["otherwise"])
-                    return res
+                    found.append(res)
                 break
-    return None
+    if not found:
+        return None
+    # several matches on the message (a classifier `match &msg { A | B => true, _ => false }` ahead of the dispatch): the
+    # dispatch is the one that tells the most variants apart; ties keep the first
+    found.sort(key=lambda r: -len({e for e in r.values()}))
+    return found[0]
 
 
 def region_of_edge(body, edge):
@@ -1390,6 +1400,10 @@ def control_conditions(P, fn, b, expand_helpers=True, _depth=0):
                                     c3["cond"] = (cc[0], subst_params(cc[1], mapping)) + tuple(cc[2:])
                                 c3["sw"] = r["sw"]
                                 rep.append(c3)
+            if rep is None and cd[0] == "val" and len(r["allowed"]) == 1 and r["allowed"][0] in (True, False):
+                alts_ = option_bool_alts(P, fn, r)
+                if alts_ is not None and len(alts_) == 1:
+                    rep = alts_[0]          # `res.map_or(false, |x| test(x))` is true on one path only: Ok ∧ test
             if rep is None:
                 out2.append(r)
             else:
@@ -1575,6 +1589,69 @@ def edge_condition(P, fn, sw, tb):
     return {"sw": sw, "cond": cond, "allowed": labels, "ty": ty}
 
 
+def option_bool_alts(P, fn, c):
+    """A bool computed as `opt.map_or_else(|| dflt, |x| test(x))` / `opt.map_or(dflt, |x| test(x))`: the alternatives
+    {opt is None ∧ dflt == want} and {opt is Some ∧ test(payload) == want} as condition lists, else None."""
+    cd = c["cond"]
+    v = cd[1]
+    if v[0] != "call" or not isinstance(v[3], str) or len(v[4]) != 3:
+        return None
+    g = generic_path(v[3])
+    is_res = re.search(r"result::Result(::<[^>]*>)?::map_or(_else)?$", g) is not None
+    if not is_res and not re.search(r"option::Option(::<[^>]*>)?::map_or(_else)?$", g):
+        return None
+    V_NONE, V_SOME = ("Err", "Ok") if is_res else ("None", "Some")
+    want = c["allowed"][0]
+    opt, dflt, fclo = v[4]
+    sw = c["sw"]
+
+    def cond_for(val):
+        c2 = cond_of_value(val, sw)
+        if c2[0] not in ("cmp", "val", "flag", "discr"):
+            return None
+        neg = _cond_negated(c2)
+        return {"sw": sw, "cond": c2, "allowed": [want != neg], "ty": None, "via": "option"}
+    # the default
+    if g.endswith("map_or_else"):
+        if not (dflt[0] == "agg" and dflt[1] == "closure"):
+            return None
+        df = P.fn(dflt[2])
+        ex = exit_sites(P, df) if df is not None and df.body is not None else []
+        if len(ex) != 1:
+            return None
+        dval = ex[0][3]
+    else:
+        dval = dflt
+    if dval[0] == "const" and dval[1] in ("int", "bool"):
+        none_alt = [] if bool(dval[2]) == want else None       # constant default: the alternative exists or not
+    else:
+        cdn = cond_for(dval)
+        if cdn is None:
+            return None
+        none_alt = [cdn]
+    if not (fclo[0] == "agg" and fclo[1] == "closure"):
+        return None
+    ff = P.fn(fclo[2])
+    ex = exit_sites(P, ff) if ff is not None and ff.body is not None else []
+    if len(ex) != 1:
+        return None
+    payload = proj(proj(opt, ("v", V_SOME)), ("f", 0))
+    sval = subst_params(ex[0][3], {("param", ff.path, 1): payload})
+    if sval[0] == "const" and sval[1] in ("int", "bool"):
+        some_alt = [] if bool(sval[2]) == want else None
+    else:
+        cds = cond_for(sval)
+        if cds is None:
+            return None
+        some_alt = [cds]
+    alts = []
+    if none_alt is not None:
+        alts.append([{"sw": sw, "cond": ("discr", opt), "allowed": [V_NONE], "ty": None, "via": "option"}] + none_alt)
+    if some_alt is not None:
+        alts.append([{"sw": sw, "cond": ("discr", opt), "allowed": [V_SOME], "ty": None, "via": "option"}] + some_alt)
+    return alts or None
+
+
 def path_conjunctions(P, fn, b, limit=96):
     """Every acyclic path entry -> b as a conjunction of conditions (control_conditions form), with `check(..)?` helpers
     and bool flags expanded.  Unlike control_conditions (what holds on *all* paths) this keeps the paths apart, so a block
@@ -1626,6 +1703,8 @@ def path_conjunctions(P, fn, b, limit=96):
                     alts = truth_dnf(P, fn, c["flag_at"][0], c["flag_at"][1], c["allowed"][0] != c["flag_at"][2], 1)
                 elif t["discr"]["k"] in ("copy", "move") and not t["discr"]["place"]["p"]:
                     alts = truth_dnf(P, fn, (sw, len(body.blocks[sw]["stmts"])), t["discr"]["place"]["l"], c["allowed"][0], 1)
+            if alts is None and cd[0] == "val" and len(c["allowed"]) == 1 and c["allowed"][0] in (True, False):
+                alts = option_bool_alts(P, fn, c)
             if alts is None:
                 rows = [r + [c] for r in rows]
             else:
@@ -1633,7 +1712,22 @@ def path_conjunctions(P, fn, b, limit=96):
             if len(rows) > limit:
                 return None
         out += rows
-    return out
+    # drop infeasible rows: a path that needs one discriminant to be two different variants (a flag expanded into the arm
+    # that sets it, combined with the other arm of the same match)
+    feas = []
+    for row in out:
+        ok = True
+        seen_d = []
+        for c in row:
+            if c["cond"][0] == "discr":
+                for (v0, al0) in seen_d:
+                    if v0 == c["cond"][1] and not (set(map(str, al0)) & set(map(str, c["allowed"]))):
+                        ok = False
+                seen_d.append((c["cond"][1], c["allowed"]))
+        if ok:
+            feas.append(row)
+    return feas
+
 
 
 def control_conditions_dnf(P, fn, b, depth=0):
